@@ -199,20 +199,25 @@ PROPS["C17"] = dict(
             "the representation invariant (seeded through the verif-hooks setter), any lookup index 0..=n+1, answer + invariant re-established; plus every "
             "3-lookup history from the fresh state on n=4"),
     outside="n > 6; text lengths not listed; more than 256 distinct positions (second select sample); YamlIndex wrappers (thin, read not encoded)",
-    assumptions=["AVX2 block popcount path modelled; select_in_word replaced by its loop-free contract (decided in C02)",
+    assumptions=["select_in_word replaced by its loop-free contract (decided in C02); bits::scan_select replaced by its prefix-sum specification (decided in C01)",
+                 "in the step harnesses the tables' private sampled select (ib_select1_with_state) is replaced by its specification; c17_ib_select_* decide the real one against it",
                  "the representation invariant written in the harness (inv) is what makes the induction sound; it is checked on the constructor's state"],
     harnesses=[
-        H("c17_open_step_n4_tl100", timeout=1200, unwindset=EFU, bounds="starts, n=4, text_len 100, positions < 100"),
-        H("c17_open_step_n5_tl128", timeout=1800, unwindset=EFU, tier="thorough", bounds="starts, n=5, text_len 128"),
-        H("c17_open_step_n4_tl64", timeout=1200, unwindset=EFU, bounds="starts, n=4, text_len 64, positions < 64"),
-        H("c17_open_step_n6_tl100", timeout=2700, unwindset=EFU, tier="thorough", bounds="starts, n=6, text_len 100"),
-        H("c17_open_step_n4_tl100_eof", timeout=1200, unwindset=EFU, bounds="starts, n=4, text_len 100, positions <= 100"),
-        H("c17_open_step_n4_tl64_eof", timeout=1200, unwindset=EFU, bounds="starts, n=4, text_len 64, positions <= 64"),
-        H("c17_end_step_n4_tl100", timeout=1200, unwindset=EFU, bounds="ends, n=4, text_len 100"),
-        H("c17_end_step_n5_tl128", timeout=1800, unwindset=EFU, tier="thorough", bounds="ends, n=5, text_len 128"),
-        H("c17_end_step_n4_tl64", timeout=1200, unwindset=EFU, bounds="ends, n=4, text_len 64"),
-        H("c17_end_step_n4_tl63", timeout=1200, unwindset=EFU, tier="thorough", bounds="ends, n=4, text_len 63"),
-        H("c17_dense_fallback_n4", timeout=600, unwindset=EFU, bounds="non-monotone n=4"),
+        H("c17_open_step_n4_tl100", timeout=1200, mem_gb=26, bounds="starts, n=4, text_len 100, positions < 100"),
+        H("c17_open_step_n5_tl128", timeout=1800, mem_gb=26, tier="thorough", bounds="starts, n=5, text_len 128"),
+        H("c17_open_step_n4_tl64", timeout=1200, mem_gb=26, bounds="starts, n=4, text_len 64, positions < 64"),
+        H("c17_open_step_n6_tl100", timeout=2700, mem_gb=26, tier="thorough", bounds="starts, n=6, text_len 100"),
+        H("c17_open_step_n4_tl100_eof", timeout=1200, mem_gb=26, bounds="starts, n=4, text_len 100, positions <= 100"),
+        H("c17_open_step_n4_tl64_eof", timeout=1200, mem_gb=26, bounds="starts, n=4, text_len 64, positions <= 64"),
+        H("c17_end_step_n4_tl100", timeout=1200, mem_gb=26, bounds="ends, n=4, text_len 100"),
+        H("c17_end_step_n5_tl128", timeout=1800, mem_gb=26, tier="thorough", bounds="ends, n=5, text_len 128"),
+        H("c17_end_step_n4_tl64", timeout=1200, mem_gb=26, bounds="ends, n=4, text_len 64"),
+        H("c17_end_step_n4_tl63", timeout=1200, mem_gb=26, tier="thorough", bounds="ends, n=4, text_len 63"),
+        H("c17_open_init_inv_n4", timeout=900, mem_gb=20, bounds="constructor state satisfies the invariant; compact iff monotone"),
+        H("c17_end_init_inv_n4", timeout=900, mem_gb=20, bounds="constructor state satisfies the invariant (ends)"),
+        H("c17_ib_select_n4_tl100", timeout=2700, mem_gb=30, tier="thorough", bounds="real sampled select == model, n=4, every k"),
+        H("c17_ib_select_n5_tl128", timeout=2700, mem_gb=30, tier="thorough", bounds="real sampled select == model, n=5"),
+        H("c17_dense_fallback_n4", timeout=900, mem_gb=20, bounds="non-monotone n=4"),
         H("c17_open3_n4_tl100", timeout=2700, unwindset=EFU, tier="thorough", bounds="3-lookup histories from the fresh state, n=4"),
         H("c17_end3_n4_tl100", timeout=2700, unwindset=EFU, tier="thorough", bounds="3-lookup histories from the fresh state, ends n=4"),
         H("c17_witness_must_fail", kind="witness", tier="thorough", timeout=600, unwindset=EFU),
